@@ -55,6 +55,10 @@ func genLin(g *GenCtx) {
 	emit("obj=q cap=1", [][]string{{"dp", "r", "dz", "r"}, {"sl:2", "x"}, {"sl:30", "c"}})         // cancel
 	emit("obj=q cap=1", [][]string{{"c"}, {"c"}, {"c"}, {"r"}, {"s1"}})                            // concurrent closes
 	emit("obj=q cap=3", [][]string{{"s1", "s2", "s3"}, {"r", "r"}, {"r"}, {"sl:50", "c"}})         // competing consumers
+	// a near deadline that is extended just when it fires (the timer callback may already be running)
+	for _, d := range []int{2, 3, 3, 4} {
+		emit("obj=q cap=2", [][]string{{"ds", fmt.Sprintf("sl:%d", d), "df", "s1", "s2", "r"}, {"ds", fmt.Sprintf("sl:%d", d), "dz", "r"}, {fmt.Sprintf("sl:%d", d), "df", "r"}, {"sl:30", "c"}})
+	}
 	nq := 900
 	if g.Thorough() {
 		nq = 30000 / g.Parts
